@@ -666,14 +666,14 @@ pub fn lc_main(prop: &str) {
         // listing on arbitrary tables (resume chains whose start estimates cross, ties, origins missing from the table)
         record_table(&mut sink, vec![TRow { id: 1, ecu: 1, start: 900, resume: None }, TRow { id: 2, ecu: 1, start: 890, resume: Some((1, 900)) }, TRow { id: 3, ecu: 1, start: 895, resume: Some((2, 890)) }]);
         record_table(&mut sink, vec![TRow { id: 2, ecu: 1, start: 50, resume: Some((1, 100)) }, TRow { id: 3, ecu: 2, start: 70, resume: None }, TRow { id: 1, ecu: 1, start: 100, resume: None }]);
-        let nt = a.count.map(|c| c / 2).unwrap_or(match a.tier.as_str() { "quick" => 300, "search" => 1500, _ => 5000 });
+        let nt = a.count.map(|c| c / 2).unwrap_or(match a.tier.as_str() { "quick" => 300, "search" => 1500, _ => 10000 });
         let mut trng = Rng::new(a.seed ^ 0x7ab1e);
         for _ in 0..nt {
             let rows = gen_table(&mut trng);
             record_table(&mut sink, rows);
         }
     }
-    let n = a.count.unwrap_or(match a.tier.as_str() { "quick" => 400, "search" => 1500, _ => 6000 });
+    let n = a.count.unwrap_or(match a.tier.as_str() { "quick" => 400, "search" => 1500, _ => 15000 });
     let mut rng = Rng::new(a.seed);
     for k in 0..n {
         let clean_share = if prop == "C08" { 2 } else { 6 };
